@@ -147,7 +147,7 @@ macro_rules
     let builtin ← #[``OkRel.pure, ``OkRel.throw, ``OkRel.get, ``OkRel.liftE, ``OkRel.assert, ``OkRel.int].mapM
       fun n => `(tactic| apply $(mkIdent n))
     let tail ← #[``OkRel.bind, ``OkRel.ite, ``OkSpec.swallow].mapM fun n => `(tactic| apply $(mkIdent n))
-    let all := #[← `(tactic| intro _), ← `(tactic| rfl), ← `(tactic| exact ⟨rfl, rfl, rfl⟩), ← `(tactic| contradiction)] ++ builtin ++ user ++ tail ++ #[← `(tactic| split)]
+    let all := #[← `(tactic| intro _)] ++ builtin ++ user ++ tail ++ #[← `(tactic| split), ← `(tactic| rfl), ← `(tactic| exact ⟨rfl, rfl, rfl⟩), ← `(tactic| contradiction)]
     `(tactic| repeat' (first $[| $all:tactic]*))
 
 end AsyncFix.Restart
